@@ -30,7 +30,12 @@ reset tie  : the member list of struct mixer_voice is generated from the preproc
              harness/c14_voice_members.h X-macro); in every tick of the tie runs every free voice is compared member by
              member with the other free voices and, sampled (not-plainly-zero images first), with Xmp.MixKernel.resetValue
              (command vr) - libxmp_virt_resetvoice / _resetchannel / virt_reset are the only writers of a free slot.
-search     : generated Oktalyzer modules with 0..4 split channel pairs and one corpus module of every format class (by name) are
+search     : IT modules with embedded MIDI macros setting the filter from every macro variable (gen_c14_synth.macro_modules) under
+             the separation oracle (found: variable y read the pan after the separation scaling, fixed 60fae71, signature
+             separation:mirror:c14macro_<seed>_y.it); hard-panned synthetic modules at exactly +-100 (anticlick tails);
+             the twin correspondence (voiceVol) runs the 3 smallest corpus modules of every format class with master /
+             effects-mixer volumes 0..200, volume-table formats always at a master volume that really scales.
+             generated Oktalyzer modules with 0..4 split channel pairs and one corpus module of every format class (by name) are
              in every silence / twin run; solo-sum on the many-NNA modules at XMP_PLAYER_VOICES 7, 8, 10.
              IT modules (gen_c14_synth.reuse_modules) in which a background voice is freed (sample end, fade to silence,
              duplicate check, cut) and its slot is taken by a filtered note of another channel (resonant IFC/IFR, ramp /
@@ -90,6 +95,9 @@ MANIFEST = dict(
          "channels are occupied than exist (always: their number is the number of voices), so no sounding voice is orphaned; "
          "C14_silence_master_split / C14_split_pair_volume: the partner of an Amiga split channel pair (Oktalyzer) gets the volume after "
          "the master-volume scaling. "
+         "C14_vol_table_index / C14_vol_table_then_master: the volume-translation-table lookup of process_volume (PTM, Archimedes "
+         "Tracker, Coconizer) stands before the master / effects-mixer scaling (statement order, shifts and table lengths are translator "
+         "facts), its index stays inside the table for volumes up to 0x400, and the master volume scales the table value linearly. "
          "C14_voice_reset_clears: a freed voice (model of libxmp_virt_resetvoice/_resetchannel/virt_reset over the member list generated "
          "from mixer.h) is zero in every member the kernels and the voice loop read; C14_voice_reuse_independent/_same: the contributions "
          "after a reset are those of a fresh slot, whatever the previous owner did - a voice's contribution depends only on its own "
@@ -129,7 +137,7 @@ REQUIRED = ["Xmp.MixLinear." + n for n in (
     "C14_superposition", "C14_superposition_mix", "C14_superposition_perm", "C14_superposition_append",
     "C14_solo_independent", "C14_superposition_pointwise", "C14_quantisation_int", "C14_quantisation",
     "C14_silence_buffer", "C14_silence_output", "C14_silence_voice", "C14_silence_run", "C14_silence_contrib",
-    "C14_silence_mute", "C14_silence_master_partial", "C14_silence_master_split", "C14_split_pair_volume", "C14_silence_master_full", "C14_silence_master_counterexample",
+    "C14_silence_mute", "C14_silence_master_partial", "C14_silence_master_split", "C14_split_pair_volume", "C14_vol_table_index", "C14_vol_table_then_master", "C14_silence_master_full", "C14_silence_master_counterexample",
     "C14_silence_master_status",
     "C14_separation_zero", "C14_separation_mirror_pan", "C14_separation_mirror_vol", "C14_separation_mirror",
     "C14_separation_mirror_tick", "C14_separation_zero_tick",
@@ -175,18 +183,21 @@ def format_tag(path):
     return pre if len(pre) <= 6 and pre.isalnum() else "?"
 
 
-def stratified(ck, maxsize):
-    """one (the smallest) corpus module of every format class: formats with special channel structure (split pairs,
-    paired channels, effects-mixer quirks) are in every run, whatever the random draw"""
-    best = {}
+def stratified(ck, maxsize, per=1):
+    """the `per` smallest corpus modules of every format class (regular test modules before fuzzing regressions): formats
+    with special channel structure (split pairs, volume translation tables, effects-mixer quirks) are in every run,
+    whatever the random draw"""
+    classes = {}
     for f in vlib.corpus_files():
         sz = os.path.getsize(f)
         t = format_tag(f)
         if sz > maxsize or sz < 1500 or t == "?":
             continue
-        if t not in best or sz < best[t][0]:
-            best[t] = (sz, f)
-    return sorted(f for (_, f) in best.values())
+        classes.setdefault(t, []).append((("/f/" in f), sz, f))
+    out = []
+    for t in sorted(classes):
+        out += [f for (_, _, f) in sorted(classes[t])[:per]]
+    return sorted(set(out))
 
 
 def modules(ck, n, maxsize):
@@ -476,6 +487,9 @@ def run(ck):
     # ---------------- twin contexts: player volume / pan tails ----------------
     nfr = 60 if quick else 200
     tmods = modules(ck, 60 if quick else 100000, 500000 if quick else 8000000) + synth + okt
+    # one corpus module of every format class: formats that install a volume translation table (PTM, Archimedes Tracker,
+    # Coconizer) or pair channels are in every run, under master / effects-mixer volumes drawn from 0..200
+    tmods += [f for f in stratified(ck, 500000 if quick else 8000000, per=3) if f not in tmods]
     for sh, (rc, out, err) in zip(*(lambda s: (s, vlib.pmap(run_shard, s)))(shards(exe, "twin", seed, nfr, tmods))):
         if rc != 0:
             abort_violation(ck, exe, sh, rc, err)
@@ -487,6 +501,10 @@ def run(ck):
                 bump("twin_voice_frames_unmatched", int(d["skipped"]))
                 bump("twin_background_voice_frames", int(d["nna"]))
                 bump("twin_muted_voice_frames", int(d["muted"]))
+                if d.get("voltable") == "1" and int(d["compared"]) > 0:
+                    bump("twin_volume_table_modules")
+                    if d.get("master") not in ("100", None) and d.get("master") != "0":
+                        bump("twin_volume_table_modules_scaled")
         model_compare(ck, "twin", out, stats)
 
     # ---------------- process_pan: every pan source, real calls vs Xmp.MixLinear.processPan ----------------
@@ -512,6 +530,9 @@ def run(ck):
     missing = [k for k, v in pan_cov.items() if v == 0]
     if missing:
         ck.unproved("correspondence process_pan coverage", "no real process_pan call exercised the pan source(s) %s" % missing)
+
+    if stats.get("twin_volume_table_modules_scaled", 0) == 0:
+        ck.unproved("correspondence voiceVol coverage", "no twin case ran a volume-translation-table format at a master volume other than 0 / 100")
 
     # ---------------- direct oracles on whole renders ----------------
     def oracle(mode, nfr, mods, statname, on_stat, env=None):
@@ -570,10 +591,22 @@ def run(ck):
     oracle("sep", 140 if quick else 500, panmods, "sepstat", sep_stat)
     for mixv in (100, 37):
         oracle("sep", 140 if quick else 500, panmods, "sepstat", sep_stat, {"C14_MIX": str(mixv), "C14_POS": "0"})
+    # IT modules with embedded MIDI macros that set the filter cutoff / resonance from each macro variable (c n v u x y z o h
+    # m p a b) on off-centre channels, Zxx run again ticks after the pan was set: nothing the macros can read may depend on
+    # the separation
+    macro = gen_c14_synth.macro_modules(os.path.join(vlib.OUT, "c14-synth"), seed)
+    ck.note("midi_macro_modules", [os.path.basename(f) for f in macro])
+    oracle("sep", 120 if quick else 400, macro, "sepstat", sep_stat, {"C14_POS": "0"})
+    oracle("sep", 120 if quick else 400, macro, "sepstat", sep_stat, {"C14_MIX": "100", "C14_POS": "0", "C14_VOICES": "0"})
+    # exact +-100 on the hard-panned synthetic modules (one side's gain exactly 0) with their retriggers, cuts, volume-0 and
+    # sub-tick one-shots: the anticlick tails must mirror too
+    oracle("sep", 150 if quick else 400, synth + okt, "sepstat", sep_stat, {"C14_MIX": "100"})
     # small voice tables (XMP_PLAYER_VOICES): many background voices on few busy channels, voice table never full
     for voices in (7, 8, 10):
         oracle("solosum", 260 if quick else 600, nna, "solosumstat", solosum_stat, {"C14_INTERP": "1", "C14_VOICES": str(voices)})
     oracle("solosum", 120 if quick else 400, okt, "solosumstat", solosum_stat)
+    oracle("solosum", 120 if quick else 400, gen_c14_synth.macro_modules(os.path.join(vlib.OUT, "c14-synth"), seed)[::3], "solosumstat",
+           solosum_stat, {"C14_INTERP": "1"})
     # voice-slot reuse across channels: the new owner's audio must not depend on the previous owner being audible
     for interp, rate in ((1, 44100), (2, 22050), (1, 8000)):
         oracle("solosum", 220 if quick else 500, reuse, "solosumstat", solosum_stat, {"C14_INTERP": str(interp), "C14_RATE": str(rate)})
